@@ -9,10 +9,10 @@ BATCH = 1
 BATCH_TIMEOUT = 3000
 RULE = ("case = small configuration, one victim port (port 0) and 1..3 adversary ports running an adversarial stream class for "
         ">= 3*W cycles; oracle (bounded restatement): for every victim command, between offer and acceptance and between "
-        "acceptance and its data strobe, (i) no single other port had more than K = nbanks*(depth+2)+2+read_time+write_time "
-        "commands accepted, "
-        "(ii) the wait is <= 2*W cycles, (iii) after all masters stop everything accepted completes within the drain bound; "
-        "K and W depend only on the configuration; non-trivial iff the victim completed >=10 commands under contention or was "
+        "acceptance and its data strobe, (i) the wait is <= 2*W cycles (the number of commands any single other port got "
+        "accepted meanwhile is recorded as a statistic only: a command-count bound K turned out not to be implied by the "
+        "property), (ii) after all masters stop everything accepted completes within the drain bound; "
+        "W depends only on the configuration; non-trivial iff the victim completed >=10 commands under contention or was "
         "still waiting at the end (itself the witness); distinct = distinct (config family, class, nports, depth)")
 ASSUMPTIONS = [
     "Migen simulator semantics",
@@ -115,7 +115,7 @@ def run_case(cfg):
         n, who = overtaken(t_off, t_acc)
         max_over = max(max_over, n)
         max_wait_cmd = max(max_wait_cmd, w)
-        if n > K or w > 2 * W:
+        if w > 2 * W:
             v.append(dict(kind="victim-command-not-accepted-in-bound", op=o.brief(), waited_cycles=w, bound_cycles=2 * W,
                           overtaken_by_port=who, overtaking=n, bound_overtaking=K,
                           still_waiting=o.accept is None,
@@ -131,7 +131,7 @@ def run_case(cfg):
             max_wait_data = max(max_wait_data, w2)
             if o.done is not None:
                 completed += 1
-            if n2 > K or w2 > 2 * W:
+            if w2 > 2 * W:
                 v.append(dict(kind="victim-data-not-served-in-bound", op=o.brief(), waited_cycles=w2, bound_cycles=2 * W,
                               overtaken_by_port=who2, overtaking=n2, bound_overtaking=K, still_waiting=o.done is None))
                 break
